@@ -78,9 +78,12 @@ func (st *stream) Close() error {
 }
 
 func (st *stream) enter(b []byte) *srcCall {
-	r := st.r
 	if st.active > 0 {
-		r.fail("oracle:concurrent-source-call", "two calls to the underlying "+st.kind()+" overlap", st.kind()+" calls overlap")
+		// overlapping calls to the underlying stream: an implementation detail,
+		// not part of the statement; counted only
+		if s := simrt.Active(); s != nil {
+			s.Probe("beyond-statement:overlapping calls to the underlying stream")
+		}
 	}
 	st.active++
 	c := &srcCall{blen: len(b), off: len(st.data)}
@@ -91,16 +94,6 @@ func (st *stream) enter(b []byte) *srcCall {
 		c.data = append([]byte(nil), b...)
 	} else {
 		c.off = st.off()
-	}
-	// The buffer must be the buffer of exactly one pending connection call.
-	owners := 0
-	for _, cc := range r.conn {
-		if !cc.returned && cc.write == st.write && len(cc.buf) > 0 && len(b) > 0 && &cc.buf[0] == &b[0] && len(cc.buf) == len(b) {
-			owners++
-		}
-	}
-	if owners != 1 && !r.closeInvoked {
-		r.fail("oracle:foreign-buffer", fmt.Sprintf("the underlying %s was called with a buffer owned by %d pending calls", st.kind(), owners), st.kind()+" called with a buffer of no pending call")
 	}
 	st.calls = append(st.calls, c)
 	return c
@@ -388,6 +381,10 @@ func (r *c41run) checkCall(cc *connCall) {
 	if cc.write {
 		st, what = r.out, "Write"
 	}
+	if cc.n < 0 || cc.n > len(cc.buf) {
+		r.fail("oracle:result", fmt.Sprintf("%s by %s with a %d-byte buffer returned n=%d", what, cc.task, len(cc.buf), cc.n), what+" result is not its own stream result")
+		return
+	}
 	if cc.afterClose {
 		r.sim.Probe("op-started-after-close")
 		if cc.n != 0 || cc.err != io.EOF {
@@ -398,11 +395,24 @@ func (r *c41run) checkCall(cc *connCall) {
 	if cc.write && string(cc.buf) != string(cc.want) {
 		r.fail("oracle:buffer-modified", "Write modified the caller's buffer", "Write modified the caller's buffer")
 	}
-	// find the source call made with this call's buffer
+	// Find the call to the underlying stream that belongs to this call, by the
+	// DATA and the result (not by buffer identity: an implementation is free to
+	// copy): writes carry unique content; reads produce position-coded bytes.
 	var sc *srcCall
 	for _, c := range st.calls {
-		if c.buf == &cc.buf[0] && c.blen == len(cc.buf) {
+		if !c.returned || c.delivered {
+			continue
+		}
+		if cc.write {
+			if len(c.data) >= len(cc.want) && string(c.data[:len(cc.want)]) == string(cc.want) && len(c.data) == len(cc.want) {
+				sc = c
+				break
+			}
+			continue
+		}
+		if c.n == cc.n && c.err == cc.err && (cc.n == 0 || string(cc.buf[:cc.n]) == string(c.data)) {
 			sc = c
+			break
 		}
 	}
 	closedEOF := cc.n == 0 && cc.err == io.EOF && cc.racing
@@ -561,23 +571,19 @@ func (r *c41run) Check(res *simrt.Result) *simrt.Failure {
 				Sites: []string{what + " pending after Close"}}
 		}
 	}
-	// at most one stream result per direction may be dropped, and only because of Close
+	// results that were never delivered (in flight when Close intervened): counted only
 	for _, st := range []*stream{r.in, r.out} {
-		lost := 0
 		for _, c := range st.calls {
 			if c.returned && !c.delivered {
-				lost++
+				r.extra["stream results dropped at Close ("+st.kind()+")"]++
 			}
-		}
-		if lost > 1 {
-			return &simrt.Failure{Class: "oracle:lost-results", Msg: fmt.Sprintf("%d results of %s were never delivered to a caller", lost, st.kind()), Sites: []string{st.kind() + " results dropped"}}
 		}
 	}
 	// per-writer order: the stream saw each writer's buffers in issue order
 	last := map[string]int{}
 	for _, sc := range r.out.calls {
 		for _, cc := range r.conn {
-			if cc.write && len(cc.buf) > 0 && sc.buf == &cc.buf[0] {
+			if cc.write && string(sc.data) == string(cc.want) {
 				if cc.seq < last[cc.task] {
 					return &simrt.Failure{Class: "oracle:write-order", Msg: "writes of one task reached the stream out of order", Sites: []string{"writes reordered"}}
 				}
